@@ -100,7 +100,7 @@ package node
 //@   requires[ast] wfAST(self)
 //@   requires[cr]  crOK(cr)
 //@   requires[flags] !(fl.Data().Discard && fl.Data().Returning)   // a result is either dropped or returned, never both
-//@   requires[ctx] !isExpr(self) && fl.Data().InFor ==> fl.Data().CtxLo <= fl.Data().CtxHi && fl.Data().CtxHi < fl.Data().CtxID   // enclosing loops own ids CtxLo..CtxHi, new ones start at CtxID
+//@   requires[ctx;C05,C12,C02,C09,C17] !isExpr(self) && fl.Data().InFor ==> fl.Data().CtxLo <= fl.Data().CtxHi && fl.Data().CtxHi < fl.Data().CtxID   // enclosing loops own ids CtxLo..CtxHi, new ones start at CtxID
 //@   requires[stmt_depth] !isExpr(self) ==> fl.Data().OpDepth == 0   // statements (and builtin bodies) are compiled at operator depth 0
 //@   modifies *cr.CS, allelems(*cr.CS), *cr.DS, allelems(*cr.DS), mapof(*cr.Dbg)
 //@   ensures[K2_code]  csKept(cr) && csNewWF(cr)
@@ -276,7 +276,7 @@ package node
 // for loops: one context id per iterator, allocated above the ids of the enclosing loops; the body
 // sees all of them (CtxLo..CtxHi) so that a return inside nested loops can delete every one.
 //@ pred varRefOK(n ByteCoder) bool := wfAST(n) && (dyntype(n) == typeid[Name]() || dyntype(n) == typeid[Local]())
-//@ func (For).byteCode [C05,C12,C09,C02] implements ByteCoder.byteCode
+//@ func (For).byteCode [C05,C12,C09,C02,C17] implements ByteCoder.byteCode
 //@   assumes[unfold] len(f.Iterators.Elems) == len(f.VarRefs.Elems) && len(f.Iterators.Elems) >= 1 && wfAST(f.Body)
 //@       && (forall k :: 0 <= k && k < len(f.Iterators.Elems) ==> exprOK(f.Iterators.Elems[k]))
 //@       && (forall k :: 0 <= k && k < len(f.VarRefs.Elems) ==> varRefOK(f.VarRefs.Elems[k]))
